@@ -187,6 +187,9 @@ class Attack:
                    for ns in served},
             global_catchall=rng.random() < 0.2,
             global_class=rng.random() < 0.25,
+            # (a quarter of the servers accept whatever namespace a client
+            # names)
+            namespaces_opt='*' if rng.random() < 0.25 else None,
             serializer=rng.choice(['default', 'default', 'msgpack']),
             async_handlers=rng.random() < 0.3,
             coroutines=rng.random() < 0.7, returns={})
@@ -206,7 +209,8 @@ class Attack:
         w = {'case_index': self.index, 'kind': self.kind,
              'config': {k: self.cfg[k] for k in (
                  'serializer', 'served', 'style', 'async_handlers',
-                 'global_catchall', 'global_class', 'coroutines')},
+                 'global_catchall', 'global_class', 'coroutines',
+                 'namespaces_opt')},
              'last_offender_frames': self.ops[-8:]}
         if extra:
             w.update(extra)
@@ -273,7 +277,25 @@ class Attack:
         mode = rng.random()
         if getattr(self, 'force_mode', None):
             mode = self.force_mode.pop(0)
-        if 0.55 <= mode < 0.58:
+        if 0.58 <= mode < 0.6 and ser == 'default':
+            # an id (or attachment count) field of several hundred thousand
+            # digits: rejected - or parsed - in time proportional to its
+            # length, not to its square
+            n = rng.choice([3 * 10 ** 5, 6 * 10 ** 5])
+            digits = rng.choice('1279') * n
+            sendf = [rng.choice(['2' + digits + '["ev0",1]',
+                                 '2/a,' + digits + '["ev0",1]',
+                                 '3' + digits + '[1]',
+                                 '5' + digits + '-["ev0",1]',
+                                 '2' + digits])]
+            ctx.count('digit_runs_of_several_hundred_thousand')
+        elif 0.6 <= mode < 0.63 and ser == 'msgpack':
+            # CONNECT packets whose namespace field is not a string
+            sendf = [R.msgpack_encode(R.CONNECT, nsv, None, None)
+                     for nsv in rng.sample([7, 2.5, b'/raw', True, -1,
+                                            0, 10 ** 12], 2)]
+            ctx.count('connects_with_non_string_namespace')
+        elif 0.55 <= mode < 0.58:
             # well-formed acknowledgements nobody asked for, on every
             # namespace the offender is connected to (and one it is not)
             mine = [ns for (T, ns) in r.issued if T == self.OT] or ['/']
@@ -550,17 +572,22 @@ class Attack:
         in the frame's JSON payload."""
         if frame[:1] == '4' and self.ops[-1][0] == 'raw_encoded':
             frame = frame[1:]
-        i = frame.find('[')
-        if i < 0:
-            return False
-        try:
-            data = json.loads(frame[i:])
-        except ValueError:
-            return False
-        if not isinstance(data, list) or not data:
-            return False
+        # (the payload is the JSON text that ends the frame; a namespace may
+        # itself contain '[': every '[' is tried as its start)
         self.ctx.count('derivability_checks')
-        return data[0] == e[3] and R.deep_eq(data[1:], e[5])
+        i = frame.find('[')
+        tried = 0
+        while i >= 0 and tried < 200:
+            tried += 1
+            try:
+                data = json.loads(frame[i:])
+            except ValueError:
+                data = None
+            if isinstance(data, list) and data and data[0] == e[3] and \
+                    R.deep_eq(data[1:], e[5]):
+                return True
+            i = frame.find('[', i + 1)
+        return False
 
     # ---------------------------------------------------------- bystanders
     def bystander_state_ok(self, where):
@@ -663,6 +690,32 @@ class Attack:
             return self.fail('a fresh client is not served after the '
                              'attack')
         self.bystander_traffic()
+        if self.failed:
+            return
+        # a bystander can leave: its disconnect handler runs once and the
+        # server forgets it
+        (bT, bns), bsid = self.rng.choice(sorted(self.by.items()))
+        gone = {k2: v for k2, v in self.by.items() if k2[0] == bT}
+        res = r.step(['lose', bT])
+        ctx.count('bystander_departure_probes')
+        dh = [(e[2], e[4]) for e in res.get('events', [])
+              if e[0] == 'handler' and e[1] == 'disconnect']
+        want = sorted((k2[1], v) for k2, v in gone.items())
+        if res.get('errors') or sorted(dh) != want:
+            return self.fail('a bystander that leaves after the attack: '
+                             'disconnect handlers ran for %r, expected %r '
+                             '(errors %r)' % (sorted(dh), want, [
+                                 e.get('exc') for e in
+                                 res.get('errors') or []]))
+        for (k2, v) in gone.items():
+            if r.sio.manager.is_connected(v, k2[1]) or any(
+                    v in members for members in
+                    r.sio.manager.rooms.get(k2[1], {}).values()):
+                return self.fail('a bystander that left after the attack is '
+                                 'still known to the server')
+            self.by.pop(k2, None)
+            self.rooms.pop(k2, None)
+            self.sessions.pop(k2, None)
 
     def run(self, traced):
         rng = self.rng
@@ -766,6 +819,9 @@ def run(ctx):
     ctx.require('lone_surrogate_texts', 10)
     ctx.require('offender_text_relayed', 10)
     ctx.require('unsolicited_ack_frames', 20)
+    ctx.require('digit_runs_of_several_hundred_thousand', 5)
+    ctx.require('connects_with_non_string_namespace', 5)
+    ctx.require('bystander_departure_probes', 20)
     # the offender's well-formed churn handled by one thread while another
     # thread serves a bystander (controlled scheduler, statement level)
     from checks import c12_sched
